@@ -505,6 +505,99 @@ func (ev *env) exec(list []ast.Stmt, tracing bool, top bool, chain *[]string, ro
 	}
 }
 
+// what serves which listener (filled by extractChain)
+var (
+	serveSites     [][3]string
+	serverLiterals int
+	routerValues   int
+	serverWrites   int
+	listenerBinds  [][3]string // (function, listener field, constructor)
+	runStarts      [][2]string // (listener field guarding / ranged over in run, function started)
+)
+
+// extractListeners: where the listener fields of API get their value (setupHTTP / setupLibp2p) and which serving
+// function `run` starts for which of them.
+func extractListeners(f *ast.File) {
+	for _, d := range f.Decls {
+		fd, ok := d.(*ast.FuncDecl)
+		if !ok || fd.Body == nil {
+			continue
+		}
+		ast.Inspect(fd.Body, func(n ast.Node) bool {
+			as, ok := n.(*ast.AssignStmt)
+			if !ok || len(as.Lhs) != 1 || len(as.Rhs) != 1 {
+				return true
+			}
+			lhs := render(as.Lhs[0])
+			if lhs != "api.httpListeners" && lhs != "api.libp2pListener" {
+				return true
+			}
+			// the value is a local bound by <pkg>.Listen(...) calls in the same function
+			val := as.Rhs[0]
+			if ce, ok := val.(*ast.CallExpr); ok && render(ce.Fun) == "append" && len(ce.Args) == 2 && render(ce.Args[0]) == lhs {
+				val = ce.Args[1]
+			}
+			id, ok := val.(*ast.Ident)
+			if !ok {
+				die("%s: %s is given a value the translator does not know: %s", fd.Name.Name, lhs, render(as.Rhs[0]))
+			}
+			var ctors []string
+			ast.Inspect(fd.Body, func(m ast.Node) bool {
+				if bs, ok := m.(*ast.AssignStmt); ok && len(bs.Rhs) == 1 && len(bs.Lhs) >= 1 && render(bs.Lhs[0]) == id.Name {
+					if ce, ok := bs.Rhs[0].(*ast.CallExpr); ok {
+						ctors = append(ctors, render(ce.Fun))
+					} else {
+						die("%s: listener %s bound to %s", fd.Name.Name, id.Name, render(bs.Rhs[0]))
+					}
+				}
+				return true
+			})
+			if len(ctors) == 0 {
+				die("%s: no constructor for listener %s", fd.Name.Name, id.Name)
+			}
+			listenerBinds = append(listenerBinds, [3]string{fd.Name.Name, lhs, strings.Join(ctors, "|")})
+			return true
+		})
+	}
+	run := findFunc(f, "run", true)
+	if run == nil {
+		die("(*API).run not found")
+	}
+	started := func(body *ast.BlockStmt) string {
+		name := ""
+		ast.Inspect(body, func(n ast.Node) bool {
+			if ce, ok := n.(*ast.CallExpr); ok {
+				if fn := render(ce.Fun); strings.HasPrefix(fn, "api.run") {
+					if name != "" {
+						die("run: two serving functions started in one arm")
+					}
+					name = strings.TrimPrefix(fn, "api.")
+				}
+			}
+			return true
+		})
+		return name
+	}
+	for _, st := range run.Body.List {
+		switch s := st.(type) {
+		case *ast.RangeStmt:
+			runStarts = append(runStarts, [2]string{render(s.X), started(s.Body)})
+		case *ast.IfStmt:
+			c := strings.ReplaceAll(render(s.Cond), " ", "")
+			if !strings.HasSuffix(c, "!=nil") || s.Else != nil {
+				die("run: unrecognised condition %s", c)
+			}
+			runStarts = append(runStarts, [2]string{strings.TrimSuffix(c, "!=nil"), started(s.Body)})
+		case *ast.ExprStmt:
+			if fn := render(s.X.(*ast.CallExpr).Fun); fn != "api.wg.Add" {
+				die("run: unrecognised statement %s", render(s.X))
+			}
+		default:
+			die("run: unrecognised statement")
+		}
+	}
+}
+
 // extractChain: the chain served for cfg.Tracing = false and = true.
 func extractChain(f *ast.File) (plain, tracing []string, strict bool) {
 	fd := findFunc(f, "NewAPIWithHost", false)
@@ -559,22 +652,52 @@ func extractChain(f *ast.File) (plain, tracing []string, strict bool) {
 		}
 		return true
 	})
-	serves := 0
-	ast.Inspect(f, func(n ast.Node) bool {
-		if ce, ok := n.(*ast.CallExpr); ok {
-			fn := render(ce.Fun)
-			if strings.HasSuffix(fn, ".Serve") || strings.HasSuffix(fn, ".ServeTLS") || fn == "http.Serve" || fn == "http.ListenAndServe" {
-				if fn != "api.server.Serve" {
-					die("something other than api.server serves: %s", fn)
+	// every call that serves a listener: (enclosing function, server expression, listener expression)
+	for _, d := range f.Decls {
+		fd, ok := d.(*ast.FuncDecl)
+		if !ok || fd.Body == nil {
+			continue
+		}
+		ast.Inspect(fd.Body, func(n ast.Node) bool {
+			if ce, ok := n.(*ast.CallExpr); ok {
+				fn := render(ce.Fun)
+				if strings.HasSuffix(fn, ".Serve") || strings.HasSuffix(fn, ".ServeTLS") || fn == "http.Serve" || fn == "http.ListenAndServe" || fn == "http.ListenAndServeTLS" {
+					if fn != "api.server.Serve" {
+						die("something other than api.server serves: %s", fn)
+					}
+					if len(ce.Args) != 1 {
+						die("api.server.Serve: arguments")
+					}
+					serveSites = append(serveSites, [3]string{fd.Name.Name, "api.server", render(ce.Args[0])})
 				}
-				serves++
+			}
+			return true
+		})
+	}
+	if len(serveSites) == 0 {
+		die("api.server.Serve is never called")
+	}
+	// http.Server / mux router values built anywhere in the file, and writes to the server field after construction
+	ast.Inspect(f, func(n ast.Node) bool {
+		switch x := n.(type) {
+		case *ast.CompositeLit:
+			if render(x.Type) == "http.Server" {
+				serverLiterals++
+			}
+		case *ast.CallExpr:
+			if render(x.Fun) == "mux.NewRouter" {
+				routerValues++
+			}
+		case *ast.AssignStmt:
+			for _, l := range x.Lhs {
+				if r := render(l); r == "api.server" || strings.HasSuffix(r, ".server") {
+					serverWrites++
+				}
 			}
 		}
 		return true
 	})
-	if serves == 0 {
-		die("api.server.Serve is never called")
-	}
+	extractListeners(f)
 	return plain, tracing, strict
 }
 
@@ -904,6 +1027,25 @@ func main() {
 	}
 	b.WriteString("/-- handler wrapping order of NewAPIWithHost, outermost first, for cfg.Tracing = false / true -/\n")
 	fmt.Fprintf(&b, "def chain : Bool → List Layer\n  | false => %s\n  | true => %s\n\n", leanList(plain), leanList(tracing))
+	triples := func(l [][3]string) string {
+		var o []string
+		for _, t := range l {
+			o = append(o, fmt.Sprintf("(%s, %s, %s)", q(t[0]), q(t[1]), q(t[2])))
+		}
+		return "[" + strings.Join(o, ", ") + "]"
+	}
+	b.WriteString("/-- every call serving a listener: (function, server value, listener expression) -/\n")
+	fmt.Fprintf(&b, "def serveSites : List (String × String × String) := %s\n", triples(serveSites))
+	b.WriteString("/-- http.Server literals / mux.NewRouter() calls / assignments to a `server` field in restapi.go -/\n")
+	fmt.Fprintf(&b, "def serverLiterals : Nat := %d\ndef routerValues : Nat := %d\ndef serverWrites : Nat := %d\n", serverLiterals, routerValues, serverWrites)
+	b.WriteString("/-- where the listener fields get their value: (function, field, constructors) -/\n")
+	fmt.Fprintf(&b, "def listenerBinds : List (String × String × String) := %s\n", triples(listenerBinds))
+	b.WriteString("/-- (*API).run: the serving function started for each listener field -/\n")
+	var rsl []string
+	for _, t := range runStarts {
+		rsl = append(rsl, fmt.Sprintf("(%s, %s)", q(t[0]), q(t[1])))
+	}
+	fmt.Fprintf(&b, "def runStarts : List (String × String) := [%s]\n\n", strings.Join(rsl, ", "))
 	b.WriteString("/-- the decision logic of basicAuthHandler -/\n")
 	fmt.Fprintf(&b, "def authLogic : AuthLogic :=\n  { nilPassThrough := %v, okChecked := %v, cond := %s, noHeaderStatus := %d, mismatchStatus := %d }\n\n",
 		al.nilPass, al.okChecked, al.cond, al.noHeader, al.mismatch)
